@@ -49,6 +49,16 @@ CLAIMS = {
         "design_ref": "DESIGN.md section 4 C04",
         "note": "Not decided: the interpolation accuracy of the Toeplitz embedding. Unitary/isometry table is a list of mathematical facts in rules/c04.py; FFT unitarity relies on norm='ortho' (C05).",
     },
+    "C05": {
+        "engine": "E3 value numbering",
+        "category": "other",
+        "technique": "static analysis: canonical-term comparison of fft/ifft/_fftc/_ifftc (all paths) and of the centred resize with one documented template per pair; signature-default and forwarding checks",
+        "text": "Decides that the centred transforms are resize -> ifftshift -> (i)fftn -> fftshift over one normalised axes tuple with the norm forwarded, that fft/ifft are instances of one template "
+                "(mirror images), that the defaults are centred and orthonormal and the operators forward only axes/center, that real input is promoted under a not-complex guard and the result is "
+                "cast back to the input's complex dtype, that the non-centred path passes s, axes, norm, and that zero-pad/crop is aligned at n//2. Every shape/axes/norm/dtype combination is covered by the path enumeration.",
+        "design_ref": "DESIGN.md section 4 C05",
+        "note": "numpy.fft (fftn/ifftn/fftshift/ifftshift) is trusted; equality with the DFT matrix follows from the pipeline identity fftshift . fftn . ifftshift (a mathematical fact) and is not evaluated numerically.",
+    },
     "C07": {
         "engine": "E3 value numbering + kernel loop-nest summaries (kernelsum.py)",
         "category": "other",
